@@ -7,6 +7,12 @@
     The world (which sentinels answer what, which nodes are up, what they answer to ROLE) is an input
     of every step; theorems quantify over all sequences of worlds and events.  Ghost fields record
     the ROLE answer and the source of the announcement at the moment an address was adopted.
+
+    [_switchTarget] REUSES the installed connection when it is asked to switch to the address it already
+    uses and that connection is healthy, and dials a FRESH one otherwise ([target_of]).  A failed ROLE
+    check closes the probed connection in both cases: on the reuse path that is the connection installed
+    in mConn / rConn, which stays installed but closed ([ss_m_open] / [ss_r_open] = false: [pick] hands
+    out a closed connection, no user command reaches the node) until a later switch succeeds.
     Definitions only. *)
 From Coq Require Import List Arith NArith ZArith Bool.
 Require Import RV.Model.Base RV.Model.ClusterTopo.
@@ -57,20 +63,36 @@ Record sstate := mkSstate {
   (* ghost: what ROLE said and who announced the address when it was adopted *)
   ss_m_role : bytes; ss_m_src : source;
   ss_r_role : bytes; ss_r_src : source;
+  (* the connection installed in mConn / rConn has not been closed by the client *)
+  ss_m_open : bool; ss_r_open : bool;
 }.
 
 Definition set_list (st : sstate) (l : list saddr) : sstate :=
-  mkSstate l (ss_saddr st) (ss_m st) (ss_r st) (ss_m_role st) (ss_m_src st) (ss_r_role st) (ss_r_src st).
+  mkSstate l (ss_saddr st) (ss_m st) (ss_r st) (ss_m_role st) (ss_m_src st) (ss_r_role st) (ss_r_src st) (ss_m_open st) (ss_r_open st).
 Definition set_saddr (st : sstate) (a : saddr) : sstate :=
-  mkSstate (ss_list st) (Some a) (ss_m st) (ss_r st) (ss_m_role st) (ss_m_src st) (ss_r_role st) (ss_r_src st).
+  mkSstate (ss_list st) (Some a) (ss_m st) (ss_r st) (ss_m_role st) (ss_m_src st) (ss_r_role st) (ss_r_src st) (ss_m_open st) (ss_r_open st).
+
+(** where user traffic for the master / for the replica can actually arrive *)
+Definition live_m (st : sstate) : option saddr := if ss_m_open st then ss_m st else None.
+Definition live_r (st : sstate) : option saddr := if ss_r_open st then ss_r st else None.
 
 (** _addSentinel: PushFront unless present *)
 Definition add_sentinel (l : list saddr) (a : saddr) : list saddr := if mem_saddr a l then l else a :: l.
 
 (** errors: 1 dial of a data node failed, 2 ROLE failed, 3 not master, 4 not slave, 5 sentinel reply
     error, 6 not enough ready replicas, 7 sentinel dial failed, 8 no sentinel left *)
+Inductive tgt := TReused | TFresh.
+
+Definition osaddr_is (o : option saddr) (a : saddr) : bool := match o with Some b => saddr_eqb b a | None => false end.
+
+(** the connection _switchTarget probes: the installed one when the address is the current one and that
+    connection is usable (not closed by the client, node reachable: [target.Error() == nil]), else a new one *)
+Definition target_of (w : world) (st : sstate) (a : saddr) (is_master : bool) : tgt :=
+  if (if is_master then osaddr_is (ss_m st) a && ss_m_open st else osaddr_is (ss_r st) a && ss_r_open st) && w_nup w a
+  then TReused else TFresh.
+
 Definition switch_target (w : world) (st : sstate) (a : saddr) (is_master : bool) (src : source) : result sstate :=
-  if negb (w_nup w a) then Err 1
+  if negb (w_nup w a) then Err 1      (* fresh: Dial fails; an unreachable node's installed connection is not reused *)
   else match w_role w a with
        | RoleErr => Err 2
        | RoleArr items =>
@@ -79,14 +101,30 @@ Definition switch_target (w : world) (st : sstate) (a : saddr) (is_master : bool
          | first :: _ =>
            if is_master then
              if bytes_eqb first s_master_b
-             then Ok (mkSstate (ss_list st) (ss_saddr st) (Some a) (ss_r st) first src (ss_r_role st) (ss_r_src st))
+             then Ok (mkSstate (ss_list st) (ss_saddr st) (Some a) (ss_r st) first src (ss_r_role st) (ss_r_src st) true (ss_r_open st))
              else Err 3
            else
              if bytes_eqb first s_slave_b
-             then Ok (mkSstate (ss_list st) (ss_saddr st) (ss_m st) (Some a) (ss_m_role st) (ss_m_src st) first src)
+             then Ok (mkSstate (ss_list st) (ss_saddr st) (ss_m st) (Some a) (ss_m_role st) (ss_m_src st) first src (ss_m_open st) true)
              else Err 4
          end
        end.
+
+(** the state a FAILED switch leaves behind ([target.Close()] on every failure after the probe): closing a
+    fresh connection changes nothing, closing the reused one closes the installed connection *)
+Definition close_installed (st : sstate) (is_master : bool) : sstate :=
+  if is_master
+  then mkSstate (ss_list st) (ss_saddr st) (ss_m st) (ss_r st) (ss_m_role st) (ss_m_src st) (ss_r_role st) (ss_r_src st) false (ss_r_open st)
+  else mkSstate (ss_list st) (ss_saddr st) (ss_m st) (ss_r st) (ss_m_role st) (ss_m_src st) (ss_r_role st) (ss_r_src st) (ss_m_open st) false.
+
+Definition switch_fail (w : world) (st : sstate) (a : saddr) (is_master : bool) : sstate :=
+  match target_of w st a is_master with
+  | TReused => close_installed st is_master
+  | TFresh => st
+  end.
+
+Definition switch_or_fail (w : world) (st : sstate) (a : saddr) (is_master : bool) (src : source) : sstate :=
+  match switch_target w st a is_master src with Ok x => x | _ => switch_fail w st a is_master end.
 
 Definition pick_replica (w : world) (s : saddr) : result saddr :=
   match w_replicas w s with
@@ -150,15 +188,17 @@ Definition switch_all (c : scfg) (w : world) (st : sstate) (s : saddr) (m r : op
 
 (** the state left behind when the SendToReplicas case fails half way *)
 Definition switch_all_partial (c : scfg) (w : world) (st : sstate) (s : saddr) (m r : option saddr) : sstate :=
-  if sc_replica_only c then st
+  if sc_replica_only c then
+    match r with Some ra => switch_or_fail w st ra false (SrcSentinel s) | None => st end
   else if sc_has_str c then
     match m, r with
     | Some ma, Some ra =>
-      let st1 := match switch_target w st ma true (SrcSentinel s) with Ok x => x | _ => st end in
-      match switch_target w st1 ra false (SrcSentinel s) with Ok x => x | _ => st1 end
+      let st1 := switch_or_fail w st ma true (SrcSentinel s) in
+      switch_or_fail w st1 ra false (SrcSentinel s)
     | _, _ => st
     end
-  else st.
+  else
+    match m with Some ma => switch_or_fail w st ma true (SrcSentinel s) | None => st end.
 
 Fixpoint move_to_back (l : list saddr) (a : saddr) : list saddr :=
   match l with
@@ -243,7 +283,7 @@ Definition handle_event (n fuel : nat) (c : scfg) (w : world) (st : sstate) (ev 
       match switch_target w st (h, p) true SrcEvent with
       | Ok st' => Ok st'
       | Panic => Panic
-      | Err _ => refresh_retry n fuel c w st
+      | Err _ => refresh_retry n fuel c w (switch_fail w st (h, p) true)
       end
     else Ok st
   | EvReboot m =>
@@ -255,7 +295,7 @@ Definition handle_event (n fuel : nat) (c : scfg) (w : world) (st : sstate) (ev 
         match switch_target w st (h, p) true SrcEvent with
         | Ok st' => Ok st'
         | Panic => Panic
-        | Err _ => refresh_retry n fuel c w st
+        | Err _ => refresh_retry n fuel c w (switch_fail w st (h, p) true)
         end
       else
         if uses_replica c && bytes_eqb m0 s_slave_b then
@@ -298,7 +338,7 @@ Fixpoint srun (n fuel : nat) (c : scfg) (st : sstate) (ops : list sop) : result 
   end.
 
 Definition sinit (sentinels : list saddr) : sstate :=
-  mkSstate sentinels None None None [] SrcNone [] SrcNone.
+  mkSstate sentinels None None None [] SrcNone [] SrcNone false false.
 
 (** ---- correspondence cases (printed by harness/cmd/obs_sentinel) ---- *)
 Definition tab {A} (d : A) (t : list (saddr * A)) : saddr -> A :=
@@ -308,13 +348,21 @@ Definition osaddr_eqb := option_eqb saddr_eqb.
 
 Inductive outcome3 := OOk | OErr | OPanic.
 
+Inductive rop := RopRefresh | RopEvent (ev : event).
+
 Inductive case :=
 | CRefresh (c : scfg) (sentinels : list saddr)
            (sup : list (saddr * bool)) (sn : list (saddr * sentinels_reply)) (ms : list (saddr * master_reply))
            (rp : list (saddr * replicas_reply)) (nup : list (saddr * bool)) (role : list (saddr * role_reply))
            (impl : outcome3) (impl_m impl_r : option saddr) (impl_list : list saddr)
 | CSwitch (c : scfg) (st_list : list saddr) (m0 : option saddr) (parts : list bytes)
-          (nup : list (saddr * bool)) (role : list (saddr * role_reply)) (impl_m : option saddr).
+          (nup : list (saddr * bool)) (role : list (saddr * role_reply)) (impl_m : option saddr)
+(** same-address re-validation: NewClient under the first ROLE table, then one step (a refresh after the
+    subscription dropped, or an event) under the second one; where master / replica traffic arrives afterwards *)
+| CReval (c : scfg) (sentinels : list saddr)
+         (sup : list (saddr * bool)) (sn : list (saddr * sentinels_reply)) (ms : list (saddr * master_reply))
+         (rp : list (saddr * replicas_reply)) (nup : list (saddr * bool)) (role0 role1 : list (saddr * role_reply))
+         (op : rop) (impl_m impl_r : option saddr).
 
 Definition mk_world sup sn ms rp nup role : world :=
   mkWorld (tab false sup) (tab SnErr sn) (tab MErr ms) (tab RpErr rp) (tab false nup) (tab RoleErr role) 0.
@@ -343,9 +391,23 @@ Definition check_case (c : case) : bool :=
     end
   | CSwitch cfg st_list m0 parts nup role impl_m =>
     let w := mk_world [] [] [] [] nup role in
-    let st := mkSstate st_list None m0 None s_master_b SrcNone [] SrcNone in
+    let st := mkSstate st_list None m0 None s_master_b SrcNone [] SrcNone true false in
     match handle_event 0 0 cfg w st (EvSwitchMaster parts) with
     | Ok st' => osaddr_eqb (ss_m st') impl_m
+    | _ => false
+    end
+  | CReval cfg sentinels sup sn ms rp nup role0 role1 op impl_m impl_r =>
+    let w0 := mk_world sup sn ms rp nup role0 in
+    let w1 := mk_world sup sn ms rp nup role1 in
+    match refresh 64 cfg w0 (sinit sentinels) with
+    | Ok (st0, ROk) =>
+      match (match op with
+             | RopRefresh => sstep 3 64 cfg st0 (OpRefresh w1)
+             | RopEvent ev => handle_event 3 64 cfg w1 st0 ev
+             end) with
+      | Ok st1 => osaddr_eqb (live_m st1) impl_m && osaddr_eqb (live_r st1) impl_r
+      | _ => false
+      end
     | _ => false
     end
   end.
